@@ -28,7 +28,8 @@ CLAIMED = {
          "live simulator thread under depth {0,1,2,5} x multiple {0,100,4000} x fragment x route patterns; TLC (ClientTrace) "
          "accepts a run iff results are one per operation and explained by the tag model and no bundle mixed route paths; "
          "parse_operations / attribute_operations / format_path are checked against OpText.  Operations include explicit byte-offset "
-         "fragments, Get/Set Attribute Single and bundles whose replies exceed one receive buffer.",
+         "fragments, Get/Set Attribute Single, bundles whose replies exceed one receive buffer, and writes spelled without a cast (the parsing "
+         "entry point's default integer type: PlainText).",
          "5/C12", "operations refused with a CIP status = range / type errors on existing tags; string writes not in fragment mode",
          "TLA+ client contract + TLC-emitted operation lists; real connector vs live simulator over the settings matrix, validated by TLC trace spec"),
  "C13": ("fault_enumeration",
@@ -41,10 +42,11 @@ CLAIMED = {
          "TLA+ fault contract; fault-injecting relay enumerating cut offsets / lost frames / stalls on the real client; runs validated by TLC trace spec"),
  "C09": ("model_checking",
          "spec/Concurrency.tla: sessions whose (member) requests each take effect in one atomic step on the shared tag model; TLC explores "
-         "every interleaving of five scenarios (TagsWellFormed, PrivateKept, NoTornRead, termination); on the real code one thread per "
+         "every interleaving of seven scenarios -- tag services, bundles, Get Attribute Single / List, connected messaging by two sessions choosing "
+         "the same connection serial over a shared connection table -- (TagsWellFormed, PrivateKept, NoTornRead, OwnConnections, termination); on the real code one thread per "
          "session runs the per-frame pipeline while shared parser locks and every tag-storage access are scheduling points and a "
          "controller forces TLC-emitted schedules (deterministic, reproducible); each execution's history is checked by TLC "
-         "(ConcurrencyTrace) for linearizability against the tag model, plus reply routing, deadlock and exception freedom.",
+         "(ConcurrencyTrace) for linearizability against the tag model and the connection table, plus reply routing, deadlock and exception freedom.",
          "5/C09", "forced schedules preempt at the instrumented points (parser locks, the middle of every shared-parser run, tag storage accesses, the tag loop of logix.setup); free-running threads (switch interval 1 us, warm and cold start) sample everything else",
          "TLA+ atomic-effect model + TLC interleavings; TLC-emitted schedules forced on real threads; histories checked for linearizability by TLC"),
  "C08": ("fault_enumeration",
@@ -64,7 +66,9 @@ CLAIMED = {
          "law for forward/backward transitions, Parse(Format(d)) = d over boundary durations, and emits vectors: the real timestamp "
          "class must render/compare as computed (also after arithmetic on an already rendered value), the real duration class "
          "round-trips and parses the spec's text; real zones: probes around every recent DST transition (own TZif reader) are "
-         "rendered with the generic zone name and parsed back, TLC (TimesTrace) decides same-instant vs must-reject.",
+         "rendered with the generic zone name and parsed back, TLC (TimesTrace) decides same-instant vs must-reject.  spec/TsObject.tla is the "
+         "timestamp object with its memoised rendering under str / += / -=; TLC checks Coherent on every history of <= 3 (4) operations and "
+         "every history is replayed on a real timestamp object.",
          "5/C17", "sampling of binary floating point (ties and values within 2 us of a comparison boundary excluded); tz database and strftime trusted; "
          "no DST-specific abbreviations on this image",
          "TLA+ laws checked by TLC on an integer model; TLC-emitted vectors replayed; zone probes of the real code validated by TLC"),
@@ -99,21 +103,23 @@ CLAIMED = {
          "3-octet symbols, two of them sharing lead octets with named ones, and strings of length <= 3 (4); two known findings on byte machines (F10, F11: both exact)",
          "TLA+ derivative oracle evaluated by TLC over all small expressions x strings; machines built by cpppo replayed against it"),
  "C20": ("model_checking",
-         "spec/Tnet.tla defines Dump and Parse over a value ADT (arbitrary-precision integers, floats as text, bytes, UTF-8 text, "
+         "spec/Tnet.tla defines Dump and Parse over a value ADT (arbitrary-precision integers, floats as text, bytes, text as code points written in UTF-8 or Latin-1, "
          "booleans, null, lists, dictionaries); TLC checks Parse(Dump(v)) = (v, <<>>) and the same in front of every tail for every "
          "value of the bounded domain; each (value, octets) vector is replayed into tnetstrings.dump / parse (exact types, "
          "remainder) and, for the types the streaming tnet_machine supports, fed whole / bytewise / at every two-way split with "
          "every tail: same payload, exactly Len(Dump(v)) symbols consumed; the socket-level reader tnet_from gets two-message streams "
-         "(with / without an ignored separator) whole, bytewise and at every two-way split.",
+         "(with / without an ignored separator) whole, bytewise and at every two-way split; spec/TnetReader.tla is that reader as a state machine "
+         "(chunks, receive timeouts): TLC checks ChunkingIndependent on every schedule of <= 3 chunks and <= 1 (2) timeouts and each schedule is "
+         "replayed on the real reader, yields compared one by one.",
          "5/C20", "floats carried as repr text; dictionary order = insertion order",
          "TLA+ spec (Tnet) + TLC exhaustive over the value domain; vectors replayed into dump/parse and the streaming machine over all splits"),
  "C01": ("model_checking",
          "spec/CIPWire.tla is an encoder written from the CIP layout tables as TLA+ operators; TLC evaluates it over a bounded domain of "
-         "every sub-grammar (EPATH segment kinds and widths, status, typed data of 13 types, Logix/attribute requests and all "
+         "every sub-grammar (EPATH segment kinds and widths, status, typed data of 13 types, Logix/attribute requests -- Get/Set Attribute Single, Get Attribute List, Get Attributes All -- and all "
          "replies the tag model allows, bundles, Unconnected Send, frames of each command) and checks the layout laws (even EPATH, "
          "size = words, unique decoding, bundle offset law); every vector is replayed into cpppo: produce(fields) = spec octets, "
          "parse(octets) consumes all and recovers every field, produce(parse(octets)) = octets.",
-         "5/C01", "Forward Open/Close, List* reply items, legacy command and STRUCT typed data not yet in the vector domain; floats as bit patterns",
+         "5/C01", "floats as bit patterns; STRUCT typed data as opaque octets",
          "TLA+ reference encoder (CIPWire) evaluated by TLC over boundary domains; vectors replayed into cpppo producers and parsers"),
  "C02": ("model_checking",
          "spec/Server.tla models one connection (Recv/Poll/Eof/Proc/Send/Close); TLC explores every delivery schedule of 1..2-frame "
@@ -130,7 +136,8 @@ CLAIMED = {
          "with echoed command/context/handle, the spec-computed SendRRData framing and CIP reply, error frame for unroutable "
          "requests, non-zero Register handle, no reply and end of session for Unregister.  Connected sessions (Forward Open small / large, "
          "SendUnitData with sequence counts, Forward Close, re-open, session-ending frames, truncations): replies re-derived by the spec and "
-         "the real Forward Open table compared with the model's after every reply and after the session.",
+         "the real Forward Open table compared with the model's after every reply and after the session.  The request size limit option (ServerOps!Oversize): "
+         "streams on servers whose limit is at / one below a frame's payload length.",
          "5/C06", "List* reply payloads not modelled here (header only; their layout is C01's); random session handle only required non-zero; connection-table clean-up modelled as coded (DEVIATION notes in Server.tla)",
          "TLA+ connection model + TLC; pipelined sessions on the real server validated by TLC trace spec (replies re-derived by the spec)"),
  "C15": ("model_checking",
@@ -175,7 +182,7 @@ CLAIMED = {
          "list elements; TLC explores all histories to depth 2-3 (WellFormed, IterationMatchesLookup, InteriorLookup, ReadOnly, "
          "DelOnlyLeaves); every (state, operation) and random histories run on real dotdicts in item/attribute/index/get forms, "
          "and TLC (DotDictTrace) accepts result, returned value and resulting tree; copy/deepcopy independence.",
-         "5/C16", "leaf values are small integers; PERMISSIVE points listed in evidence assumptions; known finding F7 modelled exactly",
+         "5/C16", "leaf values are small integers, 0 and None; keys may end in '..'; PERMISSIVE points listed in evidence assumptions; known finding F7 modelled exactly",
          "TLA+ spec (DotDict) + TLC exhaustive; per-transition replay + histories validated by TLC trace spec"),
  "C19": ("model_checking",
          "TLC checks the sorted sweep (TLA+ state machine) against the post-condition written from the statement for "
